@@ -148,7 +148,8 @@ func exec1(h *rt.H, op string) string {
 					present[slot] = true
 				}
 			case err = <-done:
-				h.OracleFail("fewer-than-three-checks", "AuthorizeTierOperation returned before asking its three questions", map[string]any{"op": op, "asked": got})
+				// not demanded by the property (a short-circuiting implementation would be correct): counted only
+				h.Count("obs:returned-before-three-checks")
 				done <- err
 				break wait
 			case <-timeout:
@@ -198,7 +199,8 @@ func exec1(h *rt.H, op string) string {
 			h.OracleFail("wrong-decision", "allowed <=> (get tier = allow AND (policy name = allow OR tier wildcard = allow)) violated", map[string]any{"op": op, "got": out})
 		}
 		if len(s.unexpected) > 0 {
-			h.OracleFail("unexpected-query", "the underlying authorizer was asked something else than the three checks of the property", map[string]any{"op": op, "queries": s.unexpected})
+			// extra / differently shaped questions are not forbidden by the property (only the decision is): counted only
+			h.Count("obs:unexpected-query")
 		}
 	}
 	h.Count("out:" + out)
